@@ -18,6 +18,10 @@ from typing import Any
 from .runner import Driver, Env, Outcome, Violation, diff_streams, Divergence
 
 
+class _NoSession(Exception):
+    pass
+
+
 def _c23():
     from .props import c23
     return c23
@@ -137,7 +141,8 @@ def run_session(sess: dict, out: Outcome) -> tuple[list[str], list[str], list[Vi
     def violation(sig: str, what: str) -> None:
         viols.append(Violation(sig, what, {"session": sess}))
 
-    for op in sess["ops"]:
+    def one_op(op: dict) -> bool:
+        """-> False when the session cannot go on"""
         kind = op["op"]
         if kind == "C":
             k = len(chain)
@@ -149,9 +154,9 @@ def run_session(sess: dict, out: Outcome) -> tuple[list[str], list[str], list[Vi
                 cls = type(Workflow)(cname, (parent,), methods)
             except WorkflowValidationError:
                 if not chain:
-                    return None
+                    raise _NoSession()
                 out.count("session:class-not-expressible")
-                continue
+                return True
             chain.append(cls)
             cfgs = {n: f._step_config for n, f in cls._get_steps_from_class().items()}
             ops.append(f"C {c23.op_steps(cfgs, classes)}")
@@ -160,7 +165,7 @@ def run_session(sess: dict, out: Outcome) -> tuple[list[str], list[str], list[Vi
         elif kind == "A":
             k = op["k"]
             if k >= len(chain):
-                continue
+                return True
             cls = chain[k]
             s = op["step"]
             name = c23.step_name(s["name"])
@@ -172,7 +177,7 @@ def run_session(sess: dict, out: Outcome) -> tuple[list[str], list[str], list[Vi
             except WorkflowValidationError as e:
                 if "is already part of this workflow" not in str(e):
                     out.count("session:step-not-expressible")
-                    continue
+                    return True
                 toks = _step_tokens(s)
                 ans = "dup"
                 if dict(cls._step_functions) != before:
@@ -183,7 +188,7 @@ def run_session(sess: dict, out: Outcome) -> tuple[list[str], list[str], list[Vi
         elif kind == "N":
             k = op["k"]
             if k >= len(chain):
-                continue
+                return True
             codes = [c23._code(x) for x in op["skip"]]
             ops.append(f"N {k} {len(codes)} {' '.join(map(str, codes))} {int(op['disabled'])}".replace("  ", " "))
             try:
@@ -200,7 +205,7 @@ def run_session(sess: dict, out: Outcome) -> tuple[list[str], list[str], list[Vi
             ops.append(f"{kind} {i}")
             if i >= len(insts):
                 exp.append("bad-op | ?")
-                continue
+                return True
             wf = insts[i]
             meta = inst_meta[i]
             fresh, fres = _fresh(wf, classes)
@@ -229,7 +234,7 @@ def run_session(sess: dict, out: Outcome) -> tuple[list[str], list[str], list[Vi
             if path == "disabled":
                 if ans != "ok 0":
                     violation("C23/disabled_validation_answered:" + ans.split(" ")[0], f"_validate() on a disable_validation instance answered {ans}")
-                continue
+                return True
             # (S) never a stale verdict: the answer is the answer of a fresh _validate_workflow on the current steps
             if ans.split(" ")[:2] != fresh.split(" ")[:2] and not (ans.startswith("err") and fresh.startswith("err") and
                                                                  ans.split(" ")[1] == fresh.split(" ")[1]):
@@ -252,6 +257,17 @@ def run_session(sess: dict, out: Outcome) -> tuple[list[str], list[str], list[Vi
             if v is not None:
                 v.signature = v.signature + ":session"
                 viols.append(v)
+        return True
+
+    for op in sess["ops"]:
+        try:
+            one_op(op)
+        except _NoSession:
+            return None
+        except KeyError as e:   # an event class of another pool: the class lists steps it never declared
+            violation("C23/session_foreign_step", f"a class of the session lists a step it never declared ({e!r})")
+            break
+    del ops[len(exp):]
     return ops, exp, viols
 
 
@@ -475,6 +491,20 @@ def result_corr(out: Outcome, cases: list[dict]) -> None:
                     want[n] = owners[0]
                 elif wild and n not in handlers:
                     want[n] = wild[0]
+            from workflows.events import StartEvent, StopEvent
+            starts = {c for cfg in steps.values() for c in cfg.accepted_events if issubclass(c, StartEvent)}
+            stops = {c for cfg in steps.values() for c in cfg.return_types if issubclass(c, StopEvent)}
+            if {res.start_event_class} != starts:
+                out.violations.append(Violation("C23/result_record_differs:start_event_class",
+                                                f"start_event_class={res.start_event_class!r} but the StartEvent types consumed are {starts}", case))
+            if {res.stop_event_class} != stops:
+                out.violations.append(Violation("C23/result_record_differs:stop_event_class",
+                                                f"stop_event_class={res.stop_event_class!r} but the StopEvent types returned are {stops}", case))
+            if list(res.catch_error_handlers) != list(handlers) or any(
+                    (h.for_steps, h.max_recoveries) != (None if handlers[n].catch_error_for_steps is None else list(handlers[n].catch_error_for_steps),
+                                                        handlers[n].catch_error_max_recoveries) for n, h in res.catch_error_handlers.items()):
+                out.violations.append(Violation("C23/result_record_differs:catch_error_handlers",
+                                                f"catch_error_handlers={res.catch_error_handlers!r} does not describe the @catch_error steps {list(handlers)}", case))
             if dict(res.handler_for_step) != want:
                 out.violations.append(Violation("C23/routing_table_differs", f"handler_for_step={dict(res.handler_for_step)} but the handlers declare {want}", case))
         except (WorkflowConfigurationError, WorkflowValidationError) as e:
